@@ -10,6 +10,7 @@ import TdVerif.Lemmas.C13Params
 import TdVerif.Model.C13Inplace
 import TdVerif.Lemmas.C13Inplace
 import TdVerif.Lemmas.C13Lazy
+import TdVerif.Lemmas.C13Install
 
 namespace TdVerif.Props.C13
 open TdVerif.C13
@@ -356,6 +357,22 @@ theorem install_agrees_on_one_module (h : Heap) (m : MId) (p : List (Name × PTr
   cases swapEntries h [(m, none)] m p with
   | error e => rfl
   | ok r => rfl
+
+/-- **install_agrees_without_sharing** — when no submodule is reached twice through the nested entries of the parameter
+tensordict (`reach`: the visited submodules, the root included, are pairwise distinct — any module *tree*), a successful
+`to_module(module)` and `to_module(module, return_swap=False)` leave exactly the same heap: same objects in the same
+slots in the same order, in every module. With `swap_installs_direct`, `swap_installs_leaf` and the slot theorems this is
+the statement that `return_swap=False` installs the supplied objects. (With a shared submodule the two differ by design:
+the default call writes it once — first sub-tensordict —, `return_swap=False` once per path — last one wins; compared
+by the `to_module_no_swap` stream.) -/
+theorem install_agrees_without_sharing (h h' : Heap) (m : MId) (p s : List (Name × PTree))
+    (hnd : (m :: reach h m p).Nodup) (hs : swap h m p = .ok (h', s)) : install h m p = .ok h' := by
+  obtain ⟨memo1, hrun⟩ := swap_inv hs
+  have hnd' := List.nodup_cons.1 hnd
+  exact (swap_install p h [(m, none)] m h' memo1 s hrun (by simp [find_cons]) hnd'.2 (by
+    intro c hc
+    have hcm : m ≠ c := by intro e; subst e; exact hnd'.1 hc
+    simp [find_cons, hcm, Memo.find])).1
 
 /-- `return_swap=False` never changes which submodules a module has -/
 theorem install_keeps_kids : ∀ (es : List (Name × PTree)) (h h' : Heap) (m : MId),
